@@ -495,6 +495,90 @@ func ruleLockset(c *Ctx) *RuleResult {
 	}
 	r.count("Resume_Close_calls_in_lib", nres)
 	r.floor("Resume_Close_calls_in_lib", 3)
+	// (f) typestate: each status transition has its precondition. The store of the new
+	// status is reached only through a test that the same thread's status is the
+	// required old one (Resume/Close: suspended -> running; Yield: running -> suspended;
+	// end: running -> dead).
+	stC := constsOfType(p, "runtime", "ThreadStatus")
+	type trans struct {
+		fn       string
+		pre, new string
+	}
+	for _, tr := range []trans{
+		{"(*Thread).Resume", "ThreadSuspended", "ThreadOK"},
+		{"(*Thread).Close", "ThreadSuspended", "ThreadOK"},
+		{"(*Thread).Yield", "ThreadOK", "ThreadSuspended"},
+		{"(*Thread).end", "ThreadOK", "ThreadDead"},
+	} {
+		f := p.Func("runtime", tr.fn)
+		if f == nil {
+			r.broken("anchor unresolved: runtime.%s", tr.fn)
+			continue
+		}
+		pre, ok1 := stC[tr.pre]
+		nw, ok2 := stC[tr.new]
+		if !ok1 || !ok2 {
+			r.broken("anchor unresolved: runtime.%s / runtime.%s", tr.pre, tr.new)
+			continue
+		}
+		recv := f.Params[0]
+		isStatusOfRecv := func(v ssa.Value) bool {
+			u, ok := stripConv(v).(*ssa.UnOp)
+			if !ok || u.Op != token.MUL {
+				return false
+			}
+			fa, ok := u.X.(*ssa.FieldAddr)
+			if !ok || fa.X != ssa.Value(recv) {
+				return false
+			}
+			_, _, fld := fieldOfAddr(fa)
+			return fld == "status"
+		}
+		found := false
+		gc := newGuardCtx(f)
+		forEachInstr(f, func(ins ssa.Instruction) {
+			st, ok := ins.(*ssa.Store)
+			if !ok {
+				return
+			}
+			fa, ok := st.Addr.(*ssa.FieldAddr)
+			if !ok || fa.X != ssa.Value(recv) {
+				return
+			}
+			if _, _, fld := fieldOfAddr(fa); fld != "status" {
+				return
+			}
+			if k, isK := constInt(st.Val); !isK || k != nw {
+				return
+			}
+			found = true
+			okPre := false
+			for _, ge := range gc.MustEdges(st.Block()) {
+				rel, ok := ge.Relation()
+				if !ok || rel.Op != token.EQL {
+					continue
+				}
+				a, b := rel.A, rel.B
+				if isStatusOfRecv(b) {
+					a, b = b, a
+				}
+				if !isStatusOfRecv(a) {
+					continue
+				}
+				if k, isK := constInt(b); isK && k == pre {
+					okPre = true
+				}
+			}
+			if okPre {
+				r.ok(fmt.Sprintf("(f) %s switches its thread to %s only when it is %s", tr.fn, tr.new, tr.pre))
+			} else {
+				r.fail("status-transition-precondition:"+tr.fn, p.InstrPos(ins), fmt.Sprintf("runtime.%s sets the thread's status to %s on a path that has not established that it was %s: a coroutine in another state (e.g. one that is itself waiting on a coroutine it resumed, whose status is also ThreadOK) can be switched, which overwrites its caller and breaks 'control always comes back to the resumer'", tr.fn, tr.new, tr.pre))
+			}
+		})
+		if !found {
+			r.broken("runtime.%s no longer stores %s into its thread's status (anchor moved?)", tr.fn, tr.new)
+		}
+	}
 	return r
 }
 
